@@ -101,15 +101,16 @@ Record params := mkParams {
 Record variant := mkVariant {
   v_key_types : bool; v_key_numpy : bool; v_key_keep : bool; v_key_align : bool; v_key_atypes : bool;
   v_reread_all : bool;        (* any cache miss => every requested type is read again *)
-  v_break_guarded : bool      (* the "maximum reached" break does not fire while the last-N deque is in use *)
+  v_break_guarded : bool;     (* the "maximum reached" break does not fire while the last-N deque is in use *)
+  v_preslice_guarded : bool   (* no index pre-slice when a source filter or require_p1_time is active *)
 }.
 (* the code as it is now: key fields and the break guard regenerated from the source on every run; the re-read rule
    is hand-transcribed control flow (held by correspondence) *)
 Definition current : variant :=
   mkVariant key_has_message_types key_has_return_numpy key_has_keep_messages key_has_time_align
-            key_has_aligned_message_types true break_guarded_by_deque.
+            key_has_aligned_message_types true break_guarded_by_deque preslice_guarded_by_read_time_tests.
 (* the code before the C12 repairs *)
-Definition legacy : variant := mkVariant false false false false false false false.
+Definition legacy : variant := mkVariant false false false false false false false false.
 
 Definition key_of (v : variant) (p : params) : params :=
   mkParams (p_tr p) (p_max p) (p_p1 p) (p_sys p) (p_bytes p) (p_idx p) (p_nan p) (p_src p)
@@ -248,7 +249,8 @@ Definition pre_slice (n : Z) (l : list DLmsg) : list DLmsg :=
 Definition read_pass (e : env) (p : params) (m : DLmsg) : bool :=
   (match p_src p with
    | None => true                                              (* reader.requested_source_ids = None *)
-   | Some s => memN (m_src m) s && memN (m_src m) (e_avail e)  (* requested ∩ available *)
+   | Some s => memN (m_src m) s                                (* requested, ∩ available when the reader does so *)
+               && (negb reader_intersects_sampled_sources || memN (m_src m) (e_avail e))
    end) && m_decodes m &&
   (if p_p1 p then m_p1_some m else true) && (if p_sys p then m_sys_some m else true).
 
@@ -276,11 +278,17 @@ Fixpoint read_loop (v : variant) (maxm : option Z) (use_deque : bool) (pass : DL
         if stop then (acc', dq') else read_loop v maxm use_deque pass l' count' acc' dq'
   end.
 
+(* `max_messages is not None and have_index() and source_ids is None and not require_p1_time and
+    not (require_system_time and system_time_messages_requested)` *)
+Definition preslice_applied (v : variant) (p : params) (sys_requested : bool) : bool :=
+  is_some (p_max p) && negb (p_sys p && sys_requested)
+  && (if v_preslice_guarded v then negb (is_some (p_src p)) && negb (p_p1 p) else true).
+
 (* everything between "Reset the filter criteria" and "Time-align the data": the messages stored, in storage order *)
 Definition read_messages (v : variant) (e : env) (p : params) (types needed : list N) : list DLmsg :=
   let sys_requested := existsb (fun t => memN t sys_types) needed in
   let idx := index_select e p types sys_requested in
-  let applied := is_some (p_max p) && negb (p_sys p && sys_requested) in        (* reader_max_messages_applied *)
+  let applied := preslice_applied v p sys_requested in                           (* reader_max_messages_applied *)
   let idx' := match p_max p with Some n => if applied then pre_slice n idx else idx | None => idx end in
   let use_deque := match p_max p with Some n => (n <? 0)%Z && negb applied | None => false end in
   let '(acc, dq) := read_loop v (p_max p) use_deque (read_pass e p) idx' 0%Z [] [] in
@@ -413,7 +421,7 @@ Definition diag (e : env) (a : args) : bool * nat :=
   let '(p, types, _) := norm_args e a in
   let needed := reduce_needed p types in
   let sys_requested := existsb (fun t => memN t sys_types) needed in
-  (is_some (p_max p) && negb (p_sys p && sys_requested),
+  (preslice_applied current p sys_requested,
    length (filter (fun m => negb (read_pass e p m)) (index_select e p types sys_requested))).
 
 (* ------------------------------------------------------------------------------------------------ *)
